@@ -58,6 +58,8 @@ def hashed(
         model_spec: ModelSpec,
     ) -> FactorValues:
         values = np.array(values)
+        if drop_rows:
+            values = np.delete(values, list(drop_rows), axis=0)
         return encode_contrasts(
             values,
             contrasts=contrasts,
